@@ -464,7 +464,7 @@ func main() {
 	}
 
 	// ---- toy stream: boundary-dense lengths, several segmentations each
-	contents := run.N(120, 1600)
+	contents := run.N(80, 1600)
 	for i := 0; i < contents; i++ {
 		cs := 1 + r.Intn(9)
 		b := 2 + r.Intn(4)
